@@ -605,34 +605,66 @@ func c12SeparatorTwins(r *Run) {
 				for which, m := range []*cors.Middleware{m1, &m2} {
 					cfg := []cors.Config{first, second}[which]
 					other := []cors.Config{second, first}[which]
+					// judged by behaviour only (how Config() renders a configuration is left open; a false alarm on a
+					// permitted re-rendering of Config() was corrected here): a preflight naming THIS configuration's method and
+					// request headers must succeed, one naming the other configuration's must fare as this configuration says,
+					// and an actual request must expose exactly this configuration's response headers
 					got := m.Config()
-					want := map[string]bool{}
-					for _, h := range cfg.RequestHeaders {
-						want[asciiLower(h)] = true
-					}
-					okCfg := got != nil && len(got.RequestHeaders) == len(want) && len(got.Methods) == len(cfg.Methods) && len(got.ResponseHeaders) == len(cfg.ResponseHeaders)
-					if okCfg {
-						for _, h := range got.RequestHeaders {
-							okCfg = okCfg && want[asciiLower(h)]
-						}
-					}
-					// a preflight that this configuration permits and the twin does not
-					probeOK := true
+					okCfg, probeOK := true, true
 					probe := ""
-					if len(cfg.RequestHeaders) > 0 {
-						names := make([]string, 0, len(cfg.RequestHeaders))
-						for _, h := range cfg.RequestHeaders {
-							names = append(names, asciiLower(h))
+					lower := func(xs []string) []string {
+						out := make([]string, 0, len(xs))
+						for _, x := range xs {
+							out = append(out, asciiLower(x))
 						}
-						sort.Strings(names)
+						sort.Strings(out)
+						return out
+					}
+					permits := func(method string, names []string) bool {
+						okM := method == "GET" || method == "HEAD" || method == "POST"
+						for _, x := range cfg.Methods {
+							okM = okM || x == method
+						}
+						own := map[string]bool{}
+						for _, x := range cfg.RequestHeaders {
+							own[asciiLower(x)] = true
+						}
+						for _, n := range names {
+							okM = okM && own[n]
+						}
+						return okM
+					}
+					for _, src := range []cors.Config{cfg, other} {
 						method := "GET"
-						if len(cfg.Methods) > 0 {
-							method = cfg.Methods[0]
+						if len(src.Methods) > 0 {
+							method = src.Methods[0]
 						}
-						q := preflightReq("https://example.com", method, []string{strings.Join(names, ",")}, false)
+						names := lower(src.RequestHeaders)
+						var acrh []string
+						if len(names) > 0 {
+							acrh = []string{strings.Join(names, ",")}
+						}
+						q := preflightReq("https://example.com", method, acrh, false)
 						o := serve(m, q)
-						probe = reqString(q) + " -> " + o.String()
-						probeOK = o.ok2xx() && len(o.get(hACAO)) > 0
+						if succ := o.ok2xx() && len(o.get(hACAO)) > 0; succ != permits(method, names) {
+							probeOK = false
+							probe = reqString(q) + " -> " + o.String()
+						}
+					}
+					if o := serve(m, actualReq("GET", "https://example.com")); true {
+						var exposed []string
+						for _, line := range o.get(hACEH) {
+							for _, el := range strings.Split(line, ",") {
+								if el = asciiLower(strings.Trim(el, " \t")); el != "" {
+									exposed = append(exposed, el)
+								}
+							}
+						}
+						sort.Strings(exposed)
+						if !equalStrings(exposed, lower(cfg.ResponseHeaders)) {
+							probeOK = false
+							probe = "actual GET -> " + o.String()
+						}
 					}
 					if !okCfg || !probeOK {
 						r.Violate("other-configuration-shows", "golden", fmt.Sprintf("two different configurations built in one process (separator %q, pair %d, order %d): the middleware configured with %s reports Config() %s and answers %s; the other one is %s", sep, pi, order, cfgString(&cfg), cfgString(got), probe, cfgString(&other)), nil)
